@@ -895,9 +895,14 @@ Definition outs_grow (E : outmsg -> Prop) (w w' : world) : Prop :=
 (* histories unchanged *)
 Definition Gr (E : outmsg -> Prop) (w w' : world) : Prop :=
   (forall g, hist_of w' g = hist_of w g) /\ outs_grow E w w'.
-(* histories change only by removals and by entries satisfying H *)
+(* every history is unchanged, or got one entry satisfying H through
+   AddToChatHistory, or went through ClearChatHistory *)
+Definition hist_step (H : str -> chatentry -> Prop) (w w' : world) : Prop :=
+  forall g, hist_of w' g = hist_of w g \/
+            (exists e, H g e /\ hist_of w' g = hist_add (hist_of w g) e) \/
+            (exists id uid, hist_of w' g = hist_clear (hist_of w g) id uid).
 Definition GrH (E : outmsg -> Prop) (H : str -> chatentry -> Prop) (w w' : world) : Prop :=
-  (forall g e, In e (hist_of w' g) -> In e (hist_of w g) \/ H g e) /\ outs_grow E w w'.
+  hist_step H w w' /\ outs_grow E w w'.
 
 Lemma og_refl : forall E w, outs_grow E w w.
 Proof. intros E w i. exists []. rewrite app_nil_r. auto. Qed.
@@ -926,11 +931,11 @@ Lemma fr_gr : forall E x w w', Fr E q_hist x w w' -> Gr E w w'.
 Proof. intros E x w w' H. split; [eapply fr_hist; eauto | destruct H as (_ & _ & C); exact C]. Qed.
 
 Lemma gr_grh : forall E H w w', Gr E w w' -> GrH E H w w'.
-Proof. intros E H w w' [Hh O]. split; [|exact O]. intros g e He. rewrite Hh in He. left. exact He. Qed.
-Lemma grh_trans : forall E H a b c, GrH E H a b -> GrH E H b c -> GrH E H a c.
+Proof. intros E H w w' [Hh O]. split; [|exact O]. intros g. left. apply Hh. Qed.
+Lemma grh_gr : forall E H a b c, GrH E H a b -> Gr E b c -> GrH E H a c.
 Proof.
   intros E H a b c [H1 O1] [H2 O2]. split; [|eapply og_trans; eauto].
-  intros g e He. destruct (H2 g e He) as [Hb|Hb]; [apply H1; exact Hb | right; exact Hb].
+  intros g. rewrite H2. apply H1.
 Qed.
 
 Lemma replay_of_same : forall w w' x, (forall g, hist_of w' g = hist_of w g) -> replay_of w' x -> replay_of w x.
@@ -1041,10 +1046,10 @@ Proof.
     + destruct (mem (chat_perm m) (c_perms c)) eqn:Ep.
       * destruct (chat_step w h c g m Hi Hc Ht Ha Eg Ep) as (w' & Hh & D & Hhist & _).
         rewrite Hh in H. inversion H; subst res. cbn [r_world]. split.
-        -- intros g' e He. rewrite Hhist in He.
-           destruct (stores m && String.eqb g' g) eqn:Es; [|left; exact He].
+        -- intros g'. rewrite Hhist.
+           destruct (stores m && String.eqb g' g) eqn:Es; [|left; reflexivity].
            apply andb_prop in Es. destruct Es as [Es Egg]. apply eqb_true in Egg. subst g'.
-           apply hist_add_In in He. destruct He as [He|He]; [left; exact He|]. right.
+           right. left. exists (chat_entry m). split; [|reflexivity].
            destruct (stores_true m Es) as [Hty Hd].
            exists h, m, c. repeat split; auto; apply Ha.
         -- eapply delivers_og; [exact D|]. intro i. eapply chat_targets_ok; eauto.
@@ -1069,8 +1074,8 @@ Proof.
         -- specialize (Hyes eq_refl). destruct (clearchat_args (m_value m)) as [[id uid]|].
            ++ destruct Hyes as (w' & Hh & Hhist & _ & D).
               rewrite Hh in H. inversion H; subst res. cbn [r_world]. split.
-              ** intros g' e He. rewrite Hhist in He. left.
-                 destruct (String.eqb g' g); [eapply hist_clear_In; exact He | exact He].
+              ** intros g'. rewrite Hhist.
+                 destruct (String.eqb g' g); [right; right; exists id, uid | left]; reflexivity.
               ** eapply delivers_og; [exact D|]. intro i. cbn beta. destruct (member_of w i g); constructor; auto.
                  left. unfold clearchat_msg. destruct (m_value m); reflexivity.
            ++ cbv zeta in Hyes. destruct Hyes as (Hh & D & Hg).
@@ -1160,22 +1165,23 @@ Qed.
 Theorem step_prov : forall w o w' r, MInv w -> step w o = Running w' r ->
   (forall i, (exists l, out_of w' i = out_of w i ++ l /\ Forall (okE (StepE w o)) l) \/
              out_of w' i = []) /\
-  (forall g e, In e (hist_of w' g) -> In e (hist_of w g) \/ StepH w o g e).
+  hist_step (StepH w o) w w'.
 Proof.
   intros w o w' r Hi H.
   assert (Hgr : forall E, Gr E w w' ->
             (forall x, E x -> StepE w o x) ->
             (forall i, (exists l, out_of w' i = out_of w i ++ l /\ Forall (okE (StepE w o)) l) \/
                        out_of w' i = []) /\
-            (forall g e, In e (hist_of w' g) -> In e (hist_of w g) \/ StepH w o g e)).
+            hist_step (StepH w o) w w').
   { intros E [Hh Ho] HE. split.
     - intro i. left. apply (og_mono E _ w w' HE Ho).
-    - intros g e He. rewrite Hh in He. left. exact He. }
+    - intros g. left. apply Hh. }
   destruct o; cbn [step] in H.
   - (* mkgroup *)
     apply (Hgr none); [|intros x []].
     destruct (find_group w name) eqn:Ef; inversion H; subst; [apply gr_refl|].
-    split; [|apply og_refl]. intro g. unfold hist_of, find_group in *. cbn [w_groups wset_groups].
+    split; [|intro i; exists []; rewrite app_nil_r; split; [reflexivity | constructor]].
+    intro g. unfold hist_of, find_group in *. cbn [w_groups wset_groups].
     destruct (find_group_in (w_groups w) g) eqn:Eg.
     + erewrite find_group_in_app_some by exact Eg. reflexivity.
     + rewrite find_group_in_app_none by exact Eg. cbn [g_name]. destruct (String.eqb name g); reflexivity.
@@ -1189,7 +1195,7 @@ Proof.
         assert (Hn : nth_error (w_clients w) i = None) by (apply nth_error_None; exact Hl).
         rewrite Hn. destruct (i - List.length (w_clients w)) as [|k]; cbn; [reflexivity|].
         destruct k; reflexivity.
-    + intros g e He. left. exact He.
+    + intros g. left. reflexivity.
   - (* a message *)
     unfold step_msg in H.
     destruct (get_client w h) as [c|] eqn:Ec;
@@ -1201,7 +1207,7 @@ Proof.
     pose proof (hcm_prov w h c m res Hi Ec Ecl Eh) as G.
     assert (G' : GrH (StepE w (OpMsg h m)) (StepH w (OpMsg h m)) w w').
     { destruct (r_err res); inversion H; subst; try exact G;
-        (eapply grh_trans; [exact G | apply gr_grh, error_close_gr]). }
+        (eapply grh_gr; [exact G | apply error_close_gr]). }
     destruct G' as [Gh Go]. split; [intro i; left; apply Go | exact Gh].
   - (* pump *)
     apply (Hgr (replay_of w)); [eapply step_pump_gr; exact H | intros x Hx; left; exact Hx].
@@ -1214,7 +1220,7 @@ Proof.
     apply (Hgr (replay_of w)); [eapply quiesce_gr; exact Eq | intros x Hx; left; exact Hx].
   - (* drain *)
     destruct (get_client w h) as [c|] eqn:Ec; inversion H; subst.
-    + split; [|intros g e He; left; exact He].
+    + split; [|intros g; left; reflexivity].
       intro i. rewrite out_of_upd. destruct (Nat.eqb_spec i h).
       * right. subst. rewrite Ec. reflexivity.
       * left. exists []. rewrite app_nil_r. auto.
@@ -1272,9 +1278,12 @@ Proof.
     { intros g e (h & m & c & -> & Hc & Hcl & Ht & Hd & Ha & Hg & Hp & He).
       exists ops, h, m, [], w0, c. repeat split; auto; apply Ha. }
     assert (Hh : forall g e, In e (hist_of w g) -> sent_in (ops ++ [o]) (stored g e)).
-    { intros g e He. destruct (Sh g e He) as [Hold|Hnew].
-      - apply sent_in_snoc. apply IHh. exact Hold.
-      - apply Hst. exact Hnew. }
+    { intros g e He. destruct (Sh g) as [Eq | [(e0 & He0 & Eq) | (id & uid & Eq)]]; rewrite Eq in He.
+      - apply sent_in_snoc. apply IHh. exact He.
+      - apply hist_add_In in He. destruct He as [He | ->].
+        + apply sent_in_snoc. apply IHh. exact He.
+        + apply Hst. exact He0.
+      - apply hist_clear_In in He. apply sent_in_snoc. apply IHh. exact He. }
     split; [|exact Hh].
     intros i x Hx. destruct (So i) as [(l & Hl & Hf) | Hnil]; [|rewrite Hnil in Hx; destruct Hx].
     rewrite Hl in Hx. apply in_app_or in Hx. destruct Hx as [Hx|Hx].
@@ -1288,4 +1297,118 @@ Proof.
         apply sent_in_snoc. apply IHh. exact He.
       * destruct A as (h & m & c & -> & Hc & Hcl & Ht & Ha & Hg & Hp & ->).
         right. left. exists ops, h, m, [], w0, c. repeat split; auto; apply Ha.
+Qed.
+
+(* ------------------------------------------------------------------ *)
+(* A successful join queues the joinedAction that triggers the replay  *)
+
+Definition queue_of (w : world) (i : nat) : list action :=
+  match get_client w i with Some c => c_queue c | None => [] end.
+
+Definition is_push (a : action) : Prop :=
+  match a with APushClient _ _ _ _ _ _ => True | _ => False end.
+
+Lemma queue_of_enq : forall w j a h,
+  exists r, queue_of (enq w j a) h = queue_of w h ++ r /\ (r = [] \/ r = [a]).
+Proof.
+  intros. unfold queue_of, enq. rewrite get_client_upd.
+  destruct (Nat.eqb h j); destruct (get_client w h); cbn.
+  - exists [a]. auto.
+  - exists []. auto.
+  - exists []. rewrite app_nil_r. auto.
+  - exists []. auto.
+Qed.
+
+Lemma queue_of_enq_self : forall w h a c, get_client w h = Some c ->
+  queue_of (enq w h a) h = queue_of w h ++ [a] /\ exists c', get_client (enq w h a) h = Some c'.
+Proof.
+  intros. unfold queue_of, enq. rewrite get_client_upd, Nat.eqb_refl, H. cbn. eauto.
+Qed.
+
+Lemma fold_push_queue : forall (F : world -> nat -> world) h l w,
+  (forall w cc, exists r, queue_of (F w cc) h = queue_of w h ++ r /\ Forall is_push r) ->
+  exists r, queue_of (fold_left F l w) h = queue_of w h ++ r /\ Forall is_push r.
+Proof.
+  intros F h l. induction l as [|a l IH]; intros w HF; cbn [fold_left].
+  - exists []. rewrite app_nil_r. auto.
+  - destruct (HF w a) as (r1 & E1 & F1). destruct (IH (F w a) HF) as (r2 & E2 & F2).
+    exists (r1 ++ r2). rewrite E2, E1, app_assoc. split; [reflexivity | apply Forall_app; auto].
+Qed.
+
+Lemma add_client_queue : forall w h c g u pw tk w' c0,
+  add_client w h c g u pw tk = (w', None) -> get_client w h = Some c0 ->
+  exists rest, queue_of w' h = queue_of w h ++ AJoined g "join" :: rest /\ Forall is_push rest.
+Proof.
+  intros w h c g u pw tk w' c0 H Hc0. unfold add_client in H. cbv zeta in H.
+  destruct (find_group w g) as [gr|]; [|inversion H].
+  match type of H with
+  | match ?s with inl _ => _ | inr _ => _ end = _ => destruct s as [[w1 c1]|[w1 e]] eqn:Es
+  end; [|inversion H].
+  (* the first phase changes the permissions and username of h at most *)
+  assert (H1 : queue_of w1 h = queue_of w h /\ exists c1', get_client w1 h = Some c1').
+  { repeat break_eq; inv_eqs; try (split; [reflexivity | eauto]).
+    all: unfold queue_of; rewrite get_client_upd, Nat.eqb_refl, Hc0; cbn; eauto. }
+  destruct H1 as [Hq1 (c1' & Hc1')].
+  destruct (is_empty (c_id c1)); [inversion H|].
+  destruct (get_member w1 g (c_id c1)); [inversion H|].
+  inversion H as [Hw']. clear H.
+  set (w2 := upd_group w1 g (fun gr => gset_members gr (g_members gr ++ [h]))).
+  assert (Hc2 : get_client w2 h = Some c1') by exact Hc1'.
+  destruct (queue_of_enq_self w2 h (AJoined g "join") c1' Hc2) as [Q3 (c3 & Hc3)].
+  set (w3 := enq w2 h (AJoined g "join")) in *.
+  set (a4 := APushClient g "add" (c_id c1) (c_username c1) (c_perms c1) (c_data c1)).
+  destruct (queue_of_enq_self w3 h a4 c3 Hc3) as [Q4 (c4 & Hc4)].
+  set (w4 := enq w3 h a4) in *.
+  assert (Hq2 : queue_of w2 h = queue_of w h) by (rewrite <- Hq1; reflexivity).
+  match goal with |- exists rest, queue_of (fold_left ?F ?l ?w0) h = _ /\ _ =>
+    destruct (fold_push_queue F h l w0) as (r & Er & Fr) end.
+  { intros w0 cc. destruct (get_client w0 cc) as [ccr|].
+    - match goal with |- exists r, queue_of (enq (enq w0 h ?a1) cc ?a2) h = _ /\ _ =>
+        destruct (queue_of_enq w0 h a1 h) as (r1 & E1 & D1);
+        destruct (queue_of_enq (enq w0 h a1) cc a2 h) as (r2 & E2 & D2) end.
+      exists (r1 ++ r2). rewrite E2, E1, app_assoc. split; [reflexivity|].
+      apply Forall_app. split; [destruct D1 as [-> | ->] | destruct D2 as [-> | ->]];
+        repeat constructor.
+    - exists []. rewrite app_nil_r. auto. }
+  rewrite Er. destruct (g_recording gr).
+  - match goal with |- exists rest, queue_of (enq w4 h ?a5) h ++ r = _ /\ _ =>
+      destruct (queue_of_enq_self w4 h a5 c4 Hc4) as [Q5 _]; rewrite Q5 end.
+    rewrite Q4, Q3, Hq2. exists ([a4; APushClient g "add" "?" "RECORDING" ["system"] []] ++ r).
+    rewrite <- !app_assoc. split; [reflexivity|]. apply Forall_app. split; [repeat constructor | exact Fr].
+  - rewrite Q4, Q3, Hq2. exists ([a4] ++ r).
+    rewrite <- !app_assoc. split; [reflexivity|]. apply Forall_app. split; [repeat constructor | exact Fr].
+Qed.
+
+Lemma join_enqueues : forall w h c m r c' g,
+  get_client w h = Some c -> c_group c = None -> handle_join w h c m = Ok r ->
+  get_client (r_world r) h = Some c' -> c_group c' = Some g ->
+  g = m_group m /\
+  exists rest, queue_of (r_world r) h = queue_of w h ++ AJoined g "join" :: rest /\ Forall is_push rest.
+Proof.
+  intros w h c m r c' g Hc Hg H Hc' Hg'. unfold handle_join in H.
+  destruct (String.eqb (m_kind m) "leave").
+  { rewrite Hg in H. finish_ok H; cbn [r_world] in Hc'. congruence. }
+  destruct (negb (String.eqb (m_kind m) "join")); [finish_ok H; cbn [r_world] in Hc'; congruence|].
+  rewrite Hg in H. cbv zeta in H.
+  match type of H with (if ?b then _ else _) = _ => destruct b end.
+  { finish_ok H; cbn [r_world] in Hc'. unfold send in Hc'. rewrite get_client_upd, Nat.eqb_refl, Hc in Hc'.
+    cbn in Hc'. inversion Hc'; subst c'. cbn in Hg'. congruence. }
+  set (w0 := upd w h (fun c => set_data c (m_data m))) in *.
+  assert (Hc0 : get_client w0 h = Some (set_data c (m_data m))).
+  { unfold w0. rewrite get_client_upd, Nat.eqb_refl, Hc. reflexivity. }
+  destruct (add_client _ _ _ _ _ _ _) as [w1 oe] eqn:Ea.
+  destruct oe as [e|].
+  - exfalso. apply add_client_fail in Ea. destruct Ea as [_ Hig].
+    destruct (join_fail_text e) as [ec v]. finish_ok H; cbn [r_world] in Hc'.
+    unfold send in Hc'. rewrite !get_client_upd, !Nat.eqb_refl in Hc'.
+    specialize (Hig h). rewrite Hc0 in Hig. cbn in Hig.
+    destruct (get_client w1 h) as [c1|]; [|discriminate]. cbn in Hig, Hc'. unfold ig in Hig.
+    inversion Hig. inversion Hc'; subst c'. cbn in Hg'. congruence.
+  - finish_ok H; cbn [r_world] in Hc'. rewrite get_client_upd, Nat.eqb_refl in Hc'.
+    destruct (add_client_queue _ _ _ _ _ _ _ _ _ Ea Hc0) as (rest & Hq & Hf).
+    destruct (get_client w1 h) as [c1|] eqn:Ec1; [|discriminate].
+    cbn in Hc'. inversion Hc'; subst c'. cbn in Hg'. inversion Hg'; subst g.
+    split; [reflexivity|]. exists rest. split; [|exact Hf].
+    unfold queue_of in *. rewrite get_client_upd, Nat.eqb_refl, Ec1. cbn.
+    rewrite Ec1, Hc0 in Hq. cbn in Hq. rewrite Hc. exact Hq.
 Qed.
